@@ -222,6 +222,24 @@ pub fn run(cx: &mut Ctx) {
             case_new(cx, &spec);
         }
     }
+    // every registered option on the REQUEST, with every one-byte value class and a few others, for all
+    // four message types: whether (and what) reply is prepared depends on the type alone
+    {
+        let reg = crate::tbl::load_registry();
+        let nums: Vec<u16> = reg.tables.get("options").map(|t| t.keys().map(|k| *k as u16).collect()).unwrap_or_default();
+        for &n in &nums {
+            let mut vals: Vec<Vec<u8>> = vec![vec![], vec![0, 2], vec![0x1a, 0x00], b"abc".to_vec()];
+            for b in (0u8..=31).chain([0x40, 0x7f, 0x80, 0xfe, 0xff]) {
+                vals.push(vec![b]);
+            }
+            for v in &vals {
+                for typ in 0..4u8 {
+                    let spec = PktSpec { vtt: 0x40 | typ << 4 | 2, code: CodeSpec::Byte(if n % 2 == 0 { 1 } else { 2 }), mid: 0x5151, tok: vec![0xa1, 0xa2], opts: vec![(n, v.clone())], payload: vec![] };
+                    case_new(cx, &spec);
+                }
+            }
+        }
+    }
     // random mids
     let n = if thorough { 20000 } else { 3000 };
     for _ in 0..n {
